@@ -143,6 +143,24 @@ def scheme_ratio_band(rng):
     return [[0., b, t, b3, b3 + rng.choice([0.0, 1.0]), rng.choice([0.0, t, 1.0])], [t, t, 0., t34, t34, rng.choice([0.0, t])]]
 
 
+def scheme_cheap_ties(rng):
+    """tie cost well below half the inversion cost, unranked elements cheap or free: the all-tied ranking is often the
+    best one (induced / unifying families)"""
+    r = rng.choice([0.25, 0.375, 0.4375])
+    b = rng.choice([1.0, 2.0])
+    t = r * b
+    if rng.random() < 0.6:
+        return [[0., b, t, 0., 0., 0.], [t, t, 0., 0., 0., 0.]]
+    return [[0., b, t, 0., b, t], [t, t, 0., t, t, 0.]]
+
+
+def scheme_unranked_free(rng):
+    """pairs with an unranked element cost nothing (induced-measure like): B[3..5] = T[3..5] = 0"""
+    b = rng.choice([1.0, 2.0, 3.0])
+    t = rng.choice([0.25, 0.5, 1.0, 1.0, 2.0]) * (b if rng.random() < 0.5 else 1.0)
+    return [[0., b, rng.choice([t, t, 0.5 * b, b]), 0., 0., 0.], [t, t, 0., 0., 0., 0.]]
+
+
 def scheme_decimal(rng):
     return scheme_random(rng, grid=DECIMAL)
 
@@ -390,6 +408,15 @@ def _dataset(rng, cls, n, m, names, nmax, mmax):
                 else:
                     r.append([e])
             ds.append(r)
+        return ds
+    if cls == "D15":     # a ranking with ties and its reverse equally often, plus one-bucket partial rankings: with cheap
+        base = ranking_over(rng, names, rng.choice([0.4, 0.6]))      # ties the all-tied ranking beats every input
+        k = rng.choice([1, 2, 2, 3])
+        ds = [[list(b) for b in base] for _ in range(k)] + [[list(b) for b in reversed(base)] for _ in range(k)]
+        for _ in range(rng.choice([1, 1, 2])):
+            sub = [e for e in names if rng.random() < 0.5] or [names[0]]
+            ds.append([sub])
+        rng.shuffle(ds)
         return ds
     if cls == "D14":     # rankings that contain an empty bucket (accepted by the Ranking constructor)
         ds = _dataset(rng, rng.choice(["D1", "D2", "D2", "D3"]), n, m, names, nmax, mmax)
